@@ -861,11 +861,13 @@ def check_ser(schema, root_ty, value, entry, res):
 def _confined_sub(schema, root_ty, value, obs_e, exp_e, ctx_bad):
     sub = []
     subclass_positions(schema, root_ty, value, sub)
-    if not sub or ctx_bad:
+    if not sub:
         return False
     uids = set()
     for v in sub:
         uids |= subtree_uids(v)
+    if any(u not in uids for _, _, u, _ in ctx_bad):
+        return False      # (the declared class's method also decides whether the hooks get the context keyword)
     return [e for e in obs_e if e[2] not in uids] == [e for e in exp_e if e[2] not in uids]
 
 
